@@ -100,6 +100,15 @@ thread_local! {
     static CASE: std::cell::Cell<(u64, u64)> = const { std::cell::Cell::new((1, 0)) };
 }
 
+thread_local! {
+    static FINDINGS: std::cell::RefCell<Vec<(String, String, String, String)>> = const { std::cell::RefCell::new(Vec::new()) };
+}
+
+/// what the context builders observed while preparing the case: (rule, input, expected, observed); drained by the framework
+pub fn take_findings() -> Vec<(String, String, String, String)> {
+    FINDINGS.with(|f| std::mem::take(&mut *f.borrow_mut()))
+}
+
 /// called by the framework before every case: contexts built for the case are a function of this salt
 pub fn begin_case(salt: u64) {
     CASE.with(|c| c.set((salt | 1, 0)));
@@ -142,9 +151,32 @@ pub fn ctx_from_model(m: &Model, log: &Log) -> Ctx {
     } else {
         Ctx::new()
     };
+    let had_past = h % 3 == 0;
+    let mut rebuilt = false;
     for (k, v) in &m.vars {
-        c.set_value(k.clone(), v.to_value())
-            .expect("set_value into a fresh context cannot fail");
+        match c.set_value(k.clone(), v.to_value()) {
+            Ok(()) => {},
+            Err(e) if had_past => {
+                // not a harness fault: the cleared context is not the empty context it reports to be
+                FINDINGS.with(|f| {
+                    f.borrow_mut().push((
+                        "context-with-cleared-past/set_value".to_string(),
+                        format!("names bound to values of other types, then {}, then set_value({:?}, {})", if h / 3 % 2 == 0 { "clear()" } else { "clear_variables()" }, k, v.show()),
+                        "Ok(()) as in a new context (the variable listing is empty)".to_string(),
+                        format!("Err({:?})", e),
+                    ))
+                });
+                rebuilt = true;
+                break;
+            },
+            Err(e) => panic!("set_value into a fresh context cannot fail: {:?}", e),
+        }
+    }
+    if rebuilt {
+        c = Ctx::new();
+        for (k, v) in &m.vars {
+            c.set_value(k.clone(), v.to_value()).expect("set_value into a fresh context cannot fail");
+        }
     }
     for (k, f) in &m.funs {
         register_fn(&mut c, k, f.clone(), log);
